@@ -6,16 +6,21 @@ import common as c
 def run(ctx):
     q = ctx.quick()
     c.tlc_l1(ctx, "Windows.tla", "MC_Windows.cfg", workers=6, timeout=1500, xmx="8g")
-    for w in ("Reach_LateSliding", "Reach_AlphaRollover"):
+    for w in ("Reach_LateSliding", "Reach_AlphaRollover", "Reach_AddThenEvicted"):
         c.tlc_l1(ctx, "Windows.tla", "MC_Windows_%s.cfg" % w, expect_violation=w, workers=2)
+    # deeper single-machine graphs: add_event / record / clear mixed on one sliding TimeWindow; WindowedStream with a small per-window cap
+    c.graph_leg(ctx, "Windows.tla", "windows", "Gen_Windows_slide.cfg", {"MaxEv": 4}, 300 if q else 3000, 6, 0)
+    c.graph_leg(ctx, "Windows.tla", "windows", "Gen_Windows_batch.cfg", {"MaxEv": 6}, 300 if q else 3000, 7, 0)
     if q:
         c.graph_leg(ctx, "Windows.tla", "windows", "Gen_Windows.cfg", {"MaxEv": 2}, 500, 8, 3,
                     "Sim_Windows.cfg", 1200, 14, sim_cfgobj={"MaxEv": 12})
     else:
         c.graph_leg(ctx, "Windows.tla", "windows", "Gen_Windows_3.cfg", {"MaxEv": 3}, 5000, 10, 4,
                     "Sim_Windows.cfg", 40000, 14, sim_cfgobj={"MaxEv": 12}, timeout=3000)
-    ctx.cov["rule"] = ("three machines chosen with their parameters by the first action (WindowManager tumbling with retention cap, "
-                       "TimeWindow::record sliding with cap, StreamAlphaNode sliding/tumbling under an injected clock with ticks); "
+    ctx.cov["rule"] = ("four machines chosen with their parameters by the first action (WindowManager tumbling with retention cap, "
+                       "one sliding TimeWindow driven through record, add_event and clear, StreamAlphaNode sliding/tumbling under an injected "
+                       "clock with ticks, WindowedStream built with a per-window cap and read through aggregate(Count/Sum/Min/Max/Average/custom), "
+                       "counts() and the windows' own getters); "
                        "shortest path + one edge for every (state,op) of the TLC-dumped graph, short histories, walks, and TLC-simulated "
                        "behaviours of up to 12 events (in-order, late and shuffled timestamps; integer / float / string / missing field); "
                        "after every event: acceptance, ordered member ids, start/end and count/sum/min/max/avg of every window or buffer; "
